@@ -13,7 +13,10 @@ let next_int () = int_of_string (next ())
 let next_nat () = nat_of_int (next_int ())
 let times n f = Stdlib.List.init n (fun _ -> ()) |> Stdlib.List.map (fun () -> f ())
 
-let parse_table () = let n = next_nat () in let i = next_nat () in { t_name = n; t_id = i }
+(* a table is printed as 100*schema + name, like the harness does (schema 0 = no schema) *)
+let parse_table () = let n = next_nat () in let s = next_nat () in let i = next_nat () in { t_name = n; t_schema = s; t_id = i }
+let parse_q () = let n = next_nat () in let s = next_nat () in qcode s n
+let show_t t = 100 * int_of_nat t.t_schema + int_of_nat t.t_name
 let parse_fk () =
   let s = next_nat () in
   let t = parse_table () in
@@ -36,16 +39,16 @@ let parse_change () =
   | "M" -> ModifyTable (t, times n parse_tc)
   | s -> failwith ("change " ^ s)
 
-let show_fk f = Printf.sprintf "%d.%d" (int_of_nat f.f_sym) (int_of_nat f.f_ref.t_name)
+let show_fk f = Printf.sprintf "%d.%d" (int_of_nat f.f_sym) (show_t f.f_ref)
 let show_tc = function
   | AddFK f -> "+" ^ show_fk f
   | DropFK f -> "-" ^ show_fk f
   | ModifyFK (a, b) -> "~" ^ show_fk a ^ ">" ^ show_fk b
   | Other k -> "o" ^ string_of_int (int_of_nat k)
 let show_change = function
-  | AddTable (t, fks) -> Printf.sprintf "A:%d:%s" (int_of_nat t.t_name) (String.concat "," (Stdlib.List.map show_fk fks))
-  | DropTable (t, fks) -> Printf.sprintf "D:%d:%s" (int_of_nat t.t_name) (String.concat "," (Stdlib.List.map show_fk fks))
-  | ModifyTable (t, cs) -> Printf.sprintf "M:%d:%s" (int_of_nat t.t_name) (String.concat "," (Stdlib.List.map show_tc cs))
+  | AddTable (t, fks) -> Printf.sprintf "A:%d:%s" (show_t t) (String.concat "," (Stdlib.List.map show_fk fks))
+  | DropTable (t, fks) -> Printf.sprintf "D:%d:%s" (show_t t) (String.concat "," (Stdlib.List.map show_fk fks))
+  | ModifyTable (t, cs) -> Printf.sprintf "M:%d:%s" (show_t t) (String.concat "," (Stdlib.List.map show_tc cs))
 
 let show_out l = "[" ^ String.concat " " (Stdlib.List.map show_change l) ^ "]"
 
@@ -59,10 +62,20 @@ let () =
         pos := 0;
         let id = next () in
         let nt = next_int () in
-        let tabs = times nt next_nat in
+        let tabs = times nt parse_q in
         let nf = next_int () in
-        let fks = times nf (fun () -> let a = next_nat () in let b = next_nat () in let c = next_nat () in ((a, b), c)) in
+        let fks = times nf (fun () -> let a = parse_q () in let b = next_nat () in let c = parse_q () in ((a, b), c)) in
         let c0 = { c_tabs = tabs; c_fks = fks } in
+        (* schema-level changes in front of the table changes: both planners emit them first, once each
+           (topLevel), and sort the table changes alone; the sort entry point gets the table changes only *)
+        let npre = next_int () in
+        let pre = times npre (fun () ->
+          let k = next () in let s = next_nat () in
+          match k with "S" -> AddSchema s | "T" -> DropSchema s | "U" -> ModifySchema s | x -> failwith ("schange " ^ x)) in
+        let show_s = function
+          | AddSchema s -> "S" ^ string_of_int (int_of_nat s)
+          | DropSchema s -> "T" ^ string_of_int (int_of_nat s)
+          | ModifySchema s -> "U" ^ string_of_int (int_of_nat s) in
         let nc = next_int () in
         let cs = times nc parse_change in
         let verdict l = match replay l c0 with Some _ -> "ok" | None -> "fail" in
@@ -71,15 +84,18 @@ let () =
            | None -> Printf.printf "%s raw out=outoffuel\n" id
            | Some l -> Printf.printf "%s raw out=%s\n" id (show_out l))
         else
-        (match plan cs with
-         | POut ->
+        (* state.plan = topLevel, then DetachCycles + SortChanges of the table changes; the sort entry point of
+           the harness gets the table changes only *)
+        (match plan_all (Stdlib.List.map (fun c -> GSchema c) pre @ Stdlib.List.map (fun c -> GTable c) cs) with
+         | None ->
            Stdlib.List.iter (fun k -> Printf.printf "%s %s out=outoffuel\n" id k) ["sort"; "mysql"; "pg"]
-         | POk l ->
+         | Some (tops, l) ->
+           let top = if npre = 0 then "" else " top=" ^ String.concat "," (Stdlib.List.map show_s tops) in
            Printf.printf "%s sort out=%s replay=%s\n" id (show_out l) (verdict l);
            let m = Stdlib.List.concat_map mysql_sources l in
-           Printf.printf "%s mysql out=%s replay=%s\n" id (show_out m) (verdict m);
+           Printf.printf "%s mysql out=%s replay=%s%s\n" id (show_out m) (verdict m) top;
            let p = Stdlib.List.concat_map pg_sources l in
-           Printf.printf "%s pg out=%s replay=%s\n" id (show_out p) (verdict p))
+           Printf.printf "%s pg out=%s replay=%s%s\n" id (show_out p) (verdict p) top)
       end
     done
   with End_of_file -> ())
